@@ -476,7 +476,7 @@ def run_check(pid, tier, seed, prop, replay=None):
     nviol = 0
     broken = [f for f in ctx.findings if not f.concrete]
     concrete = [f for f in ctx.findings if f.concrete]
-    if broken and not concrete and hasattr(prop, "search"):
+    if broken and not [f for f in concrete if match_known(pid, f, known) is None] and hasattr(prop, "search"):
         # failing-input search on the real code (budgeted)
         budget = 60 if tier == "quick" else 600
         try:
